@@ -33,6 +33,8 @@ ALLOWED_AXIOMS = {
     'ClassicalDedekindReals.sig_forall_dec', 'ClassicalDedekindReals.sig_not_dec',
     'FunctionalExtensionality.functional_extensionality_dep', 'Classical_Prop.classic',
     'proof_irrelevance', 'JMeq_eq', 'propositional_extensionality',
+    'ClassicalDedekindReals.sig_forall_dec', 'ClassicalDedekindReals.sig_not_dec', 'FunctionalExtensionality.functional_extensionality_dep',
+    'sig_forall_dec', 'sig_not_dec', 'classic',
 }
 FORBIDDEN = re.compile(r'\b(Admitted|admit|Axiom|Parameter|Conjecture|Admit Obligations)\b|Unset Guard|bypass_check|type-in-type|impredicative-set')
 
@@ -78,10 +80,10 @@ def proof_step(pid, log, areas=('base',)):
                 m = FORBIDDEN.search(src)
                 if m: res['errors'].append('forbidden construct %r in %s' % (m.group(0), fn))
         t0 = time.time()
-        rc, out = sh('timeout 3000 make -k -j16 Properties_%s.vo %s 2>&1 | grep -v "^COQC\\|^COQDEP\\|conda\\|pyenv\\|shims" | tail -40' % (pid, ' '.join('Extract_%s.vo' % a for a in areas)), cwd=COQ)
-        log.append('make: %.1fs' % (time.time() - t0))
-        built = os.path.exists(os.path.join(COQ, 'Properties_%s.vo' % pid)) and \
-            os.path.getmtime(os.path.join(COQ, 'Properties_%s.vo' % pid)) >= os.path.getmtime(os.path.join(COQ, 'Properties_%s.v' % pid))
+        import glob as _glob
+        mods = ['Properties_%s' % pid] + sorted(os.path.basename(f)[:-2] for f in _glob.glob(os.path.join(COQ, 'Properties_%s_*.v' % pid)))
+        rc, out = sh('timeout 3000 make -k -j16 %s %s 2>&1 | grep -v "^COQC\\|^COQDEP\\|conda\\|pyenv\\|shims" | tail -40' % (' '.join(m + '.vo' for m in mods), ' '.join('Extract_%s.vo' % a for a in areas)), cwd=COQ)
+        built = all(os.path.exists(os.path.join(COQ, m + '.vo')) and os.path.getmtime(os.path.join(COQ, m + '.vo')) >= os.path.getmtime(os.path.join(COQ, m + '.v')) for m in mods)
         if 'Error' in out or not built:
             res['errors'].append('coq build failed: ' + out[-1500:])
         # (re)build the OCaml driver when the extracted model or the driver sources changed
@@ -92,14 +94,15 @@ def proof_step(pid, log, areas=('base',)):
                 rc2, out2 = sh('COQ_DIR=%s sh %s %s' % (COQ, os.path.join(OCAML, 'build.sh'), area))
                 if rc2 != 0: res['errors'].append('ocaml driver build failed: ' + out2[-800:])
         # per-theorem assumptions: a generated file asks the kernel for the assumptions of every theorem of the property file
-        pf = os.path.join(COQ, 'Properties_%s.v' % pid)
-        names = re.findall(r'^\s*Theorem\s+(\w+)', strip_comments(open(pf).read()), re.M)
+        names = []      # (module, theorem): the property file and its optional companions Properties_<id>_*.v
+        for m in mods:
+            names += [(m, t) for t in re.findall(r'^\s*Theorem\s+(\w+)', strip_comments(open(os.path.join(COQ, m + '.v')).read()), re.M)]
         res['obligations'] = len(names)
         tmpd = tempfile.mkdtemp(prefix='cjprop_')
         try:
             with open(os.path.join(tmpd, 'PA.v'), 'w') as f:
-                f.write('From CJ Require Import Properties_%s.\n' % pid)
-                for nme in names: f.write('Print Assumptions Properties_%s.%s.\n' % (pid, nme))
+                f.write('From CJ Require %s.\n' % ' '.join(mods))
+                for m, nme in names: f.write('Print Assumptions %s.%s.\n' % (m, nme))
             rc, out = sh('timeout 900 coqc -Q %s CJ PA.v' % COQ, cwd=tmpd) if built else (1, 'Properties_%s.vo was not built' % pid)
         finally:
             shutil.rmtree(tmpd, ignore_errors=True)
@@ -107,13 +110,13 @@ def proof_step(pid, log, areas=('base',)):
             res['errors'].append('Properties_%s does not check: %s' % (pid, out[-1500:]))
         blocks = re.split(r'(?=Closed under the global context|Axioms:)', out)
         blocks = [b for b in blocks if b.startswith('Closed under') or b.startswith('Axioms:')]
-        for i, nme in enumerate(names):
+        for i, (m_, nme) in enumerate(names):
             if i < len(blocks):
                 b = blocks[i]
                 if b.startswith('Closed under'):
                     ax = []
                 else:
-                    ax = re.findall(r'^([\w.\']+)\s*:', b, re.M)
+                    ax = [a for a in re.findall(r'^([\w.\']+)\s*:', b, re.M) if a != 'Axioms']
                 bad = [a for a in ax if a.split('.')[-1] not in {x.split('.')[-1] for x in ALLOWED_AXIOMS}]
                 res['theorems'].append({'name': nme, 'assumptions': ax or ['Closed under the global context']})
                 if not bad and rc == 0: res['discharged'] += 1
